@@ -928,4 +928,31 @@ example : spec { entered := false, during := none, after := .orig } = true := by
 example : runCurrent .rejecting .startStopall = { entered := false, during := none, after := .orig } := by decide
 example : runCurrent .accepting .deco = { entered := true, during := some .product, after := .orig } := by decide
 
+/-- **round 5 - whatever the product's `__setattr__` raises**: with the clause of mock_.py today (`except BaseException`
+    = `catchAll`), for every product, every activation style and EVERY class of exception the attribute assignment
+    raises (the two documented ones, ValueError, a KeyError subclass, RuntimeError, a falsy exception, a
+    BaseException-only one), the original is back when the statement is over -/
+theorem C19_enter_failure_restores_any_exception (prod : Product) (exc : ExcClass) (style : Style) :
+    spec (runWith catchAll prod exc style) = true ∧ (runWith catchAll prod exc style).after = Held.orig := by
+  have h := C19_enter_failure_restores prod style
+  exact ⟨h.1, h.2.1⟩
+
+/-- ... and catching ALL classes is necessary: whatever `except` clause is used, if there is a class of exception it does
+    not catch, an attribute-rejecting product that raises it stays installed for good, in every activation style
+    (so narrowing the clause to `(AttributeError, TypeError)` or to `Exception` breaks C19) -/
+theorem C19_enter_failure_catch_all_necessary (catches : ExcClass → Bool) (exc : ExcClass) (style : Style)
+    (h : catches exc = false) :
+    (runWith catches .rejecting exc style).after = Held.product ∧
+      spec (runWith catches .rejecting exc style) = false ∧
+      specClause (runWith catches .rejecting exc style) = "enter-failed-original-not-restored" := by
+  unfold runWith
+  rw [h]
+  exact C19_enter_failure_needs_undo style
+
+/-- non-vacuity: the two narrower clauses each miss a class -/
+example : catchDocumented .valueError = false ∧ catchException .baseOnly = false ∧
+    spec (runWith catchDocumented .rejecting .valueError .withBlock) = false ∧
+    spec (runWith catchException .rejecting .baseOnly .startStopall) = false ∧
+    spec (runWith catchDocumented .rejecting .attrSub .deco) = true := by decide
+
 end AsynqModel.Mock.EnterFail
